@@ -54,7 +54,10 @@ RULE = ('a case = (record, dt, 3-5 fraction pairs incl. a nested pair and someti
         'Cluster members, fas2signal = complex-valued records), every cheap public observable of the object read on deep '
         'copies before / after the analysis calls, first calls re-called on the same object, attributes left by '
         'generate_duration_stats compared with calc_sig_dur_vals. The functions have no secondary array arguments and no '
-        'int()/floor()/ceil() of a quotient (checklist items 8, 9: nothing to size). Exhaustive part: every sequence over {-2..2} of length 1..5 (quick) / 1..6 '
+        'int()/floor()/ceil() of a quotient (checklist items 8, 9: nothing to size). Wave 5: extreme-scale records - '
+        'bracketed duration on gen.special_scale records (1e-300..1e-165, 1e155..1e300, 1e-150 next to 1e150 in one record, '
+        'ripple on a baseline, counts above 2**24) with thresholds scaled with the record; significant durations on records '
+        'whose largest |a| is 1e-150 or 1e150 exactly or anywhere in 1e-150..1e-100 / 1e100..1e150. Exhaustive part: every sequence over {-2..2} of length 1..5 (quick) / 1..6 '
         '(thorough) as float64 / int64 / int8 in plain, read-only, strided and reversed layout. distinct = digest of the '
         'complete case; non-trivial = record with a non-zero sample.')
 ASSUMPTIONS = ['NaN/inf-free real records (numpy arrays of any real dtype, lists, tuples) or AccSignal objects',
@@ -70,6 +73,9 @@ ASSUMPTIONS = ['NaN/inf-free real records (numpy arrays of any real dtype, lists
                'roundoff of the record dtype; valid for running sums of non-negative terms without under/overflow: the '
                'workload keeps |a| in 1e-18..1e24 for float64 and 1e-7..1e7 for float32); exact ties are decided strictly '
                'when every operation is exact',
+               'energy-type measures (cumulative squares, Arias) are judged only while max|a| lies in 1e-150..1e150 (squares '
+               'normal); outside they legitimately under/overflow and calls are observations. Squares of the smaller samples '
+               'may be subnormal: the band has an absolute floor of 2n*2**-1074 (Arias: divided by the constant factor)',
                'times are index*dt compared with rtol 1e-12 relative to max(time, dt): valid for every dt > 0 and n < 2**40',
                'complex records (library-made by fas2signal) count through |a| (numpy abs) for the bracketed duration and '
                'through their real part for the cumulative measures when |imag| <= 1e-9 max|real|, else not judged',
@@ -137,8 +143,8 @@ def _exact_cum(arr, measure):
     cum = O.cum_squares(ints) if measure == 'squares' else O.cum_trapezoid_squares(ints)
     if len(_CACHE) > 12:
         _CACHE.clear()
-    _CACHE[key] = cum
-    return cum
+    _CACHE[key] = (cum, den)
+    return cum, den
 
 
 class Ref(object):
@@ -155,7 +161,7 @@ def sig_reference(arr, dt, s, e, measure, im_vals=None, widen=None):
         cum_exact = True                 # the measure's own output IS the compared quantity
     else:
         mant = _mant(arr.dtype)
-        cum = _exact_cum(arr, measure)
+        cum, den = _exact_cum(arr, measure)
         # integer-valued (up to a power of two) and small: every order of summation of the squares is exact. The Arias
         # series carries the factor pi/(2*9.81)*dt whose rounding depends on the order of operations the statement does
         # not fix, so Arias comparisons are never treated as exact (ties there are ambiguous).
@@ -174,6 +180,12 @@ def sig_reference(arr, dt, s, e, measure, im_vals=None, widen=None):
             # rounding of a running sum of non-negative terms is relative to THAT partial sum; at a bound the partial sum is
             # the bound itself, so the band scales with the bound (local scale), not with the total (checklist item 10)
             band += Fraction(4 * (n + 8) * u * (1 + 1e-6)) * abs(thr)
+            # absolute floor: squares of samples below ~1e-154 are subnormal / flush to zero (each loses up to 2**-1074, for
+            # Arias before the factor pi/(2*9.81)*dt/2 is applied); matters only for records near 1e-150 and a bound at 0
+            floor = Fraction(2 * n * den * den, 2 ** 1074)
+            if measure == 'arias':
+                floor = floor * 16 / Fraction(min(float(dt), 1.0))
+            band += floor
         if not prod_exact:
             band += Fraction(3 * u) * abs(thr)
         if measure == 'arias':
@@ -265,6 +277,14 @@ def _purity(ctx, call, snap, now, what):
               '%s: %s differs bit-for-bit from its value at call entry' % (call['fn'], what))
 
 
+def _squares_normal(arr):
+    """Range of validity of the energy-type measures: the largest |a| lies within 1e-150 .. 1e150 (or the record is all zero)."""
+    if arr.dtype.kind != 'f':
+        return True
+    m = float(np.max(np.abs(arr)))
+    return m == 0 or 1e-150 <= m <= 1e150
+
+
 def check_sig(ctx, name, call, arr, dt, s, e, se, measure, result, im_vals=None):
     """Post-condition of one significant-duration call. name: clause prefix; arr: the record AT CALL ENTRY."""
     arr = _clean(arr)
@@ -277,6 +297,9 @@ def check_sig(ctx, name, call, arr, dt, s, e, se, measure, result, im_vals=None)
         return
     if measure == 'custom' and _clean(im_vals) is None:
         ctx.observe('%s: custom measure output not a finite series' % name)
+        return
+    if measure != 'custom' and not _squares_normal(arr):
+        ctx.observe('%s: max|a| outside 1e-150..1e150, sums of squares legitimately under/overflow (not judged)' % name)
         return
     ref = sig_reference(arr, dt, s, e, measure, im_vals)
     if not ref.firsts:
@@ -490,6 +513,9 @@ def _onex_common(name, call, arr, dt, s, e, measure, exc, im_vals=None):
         arr = None
     if arr is None or not (0 <= s < e <= 1) or not (dt > 0) or (measure == 'custom' and _clean(im_vals) is None):
         ctx.observe('%s: call outside the quantifier raised %s' % (name, type(exc).__name__))
+        return
+    if measure != 'custom' and not _squares_normal(arr):
+        ctx.observe('%s: max|a| outside 1e-150..1e150, sums of squares legitimately under/overflow (not judged)' % name)
         return
     if isinstance(exc, IndexError):
         ref = sig_reference(arr, dt, s, e, measure, im_vals)
@@ -927,7 +953,7 @@ def _run_case(eqsig, ctx, case):
 
     # ------------------------------------------------------------------------------------------ array level
     vals_pairs = {}
-    if case.get('array_level', True) and _clean(x) is not None:
+    if case.get('array_level', True) and not case.get('brac_only') and _clean(x) is not None:
         for j, (s, e) in enumerate(fracs):
             form = (j + form0) % 4
             if form == 3 and x.dtype == np.float32:
@@ -1006,7 +1032,7 @@ def _object_block(eqsig, ctx, case, asig, dt, fracs, measures, full, compare_fre
 
     if not full:
         calls = []
-        for (s, e) in fracs[:2]:
+        for (s, e) in ([] if case.get('brac_only') else fracs[:2]):
             for mname in [None] + measures[:1] + measures[-1:]:
                 imf = MEASURES[mname] if mname else None
                 for se in (True, False):
@@ -1039,7 +1065,7 @@ def _object_block(eqsig, ctx, case, asig, dt, fracs, measures, full, compare_fre
         padded = eqsig.AccSignal(np.concatenate([np.zeros(k_pad, dtype=cur.dtype), cur]), dt_obj)
 
     pairs0 = {}
-    for mname in [None] + measures:
+    for mname in ([] if case.get('brac_only') else [None] + measures):
         imf = MEASURES[mname] if mname else None
         pairs = pairs0 if mname is None else {}
         for j, (s, e) in enumerate(fracs):
@@ -1122,7 +1148,7 @@ def _object_block(eqsig, ctx, case, asig, dt, fracs, measures, full, compare_fre
             _rel(ctx, _same(first, again), 'rel.same-object-recall', case, 'calc_sig_dur(start=%r,end=%r)' % (s, e),
                  'first call %r, re-called after the other analysis calls %r' % (_show(first), _show(again)))
         th0, p0, _ = results[1]
-        again = _call(lambda: im.calc_brac_dur(asig, th0, se=True))
+        again = _call(lambda: im.calc_brac_dur(asig, _th_form(th0, 1 + form0), se=True))
         _rel(ctx, _same(p0, again), 'rel.same-object-recall', case, 'calc_brac_dur(threshold=%r)' % th0,
              'first call %r, re-called after the other analysis calls %r' % (_show(p0), _show(again)))
     # the object keeps every public observable (read on deep copies taken before / after the analysis calls)
@@ -1136,8 +1162,9 @@ def _object_block(eqsig, ctx, case, asig, dt, fracs, measures, full, compare_fre
         other = eqsig.AccSignal(_other_record(cur), dt_obj)
         s, e = fracs[0]
         th = ths[1]
-        _repeat_relation(ctx, case, 'calc_sig_dur(start=%r,end=%r)' % (s, e),
-                         lambda: im.calc_sig_dur(asig, start=s, end=e, se=True), lambda: im.calc_sig_dur(other, start=s, end=e, se=True))
+        if not case.get('brac_only'):
+            _repeat_relation(ctx, case, 'calc_sig_dur(start=%r,end=%r)' % (s, e),
+                             lambda: im.calc_sig_dur(asig, start=s, end=e, se=True), lambda: im.calc_sig_dur(other, start=s, end=e, se=True))
         _repeat_relation(ctx, case, 'calc_brac_dur(threshold=%r)' % th,
                          lambda: im.calc_brac_dur(asig, th, se=True), lambda: im.calc_brac_dur(other, th, se=True))
 
@@ -1442,7 +1469,8 @@ def _edge_modifier(rng, x):
     return x, ['extreme-first', 'extreme-last', 'plateau-start', 'plateau-end', 'sign-change-end', 'zero-start', 'zero-end', 'plain'][k]
 
 
-KINDS = ['generic', 'shape', 'tie', 'history', 'container', 'generic', 'tie', 'history', 'scale', 'edge', 'shape', 'history']
+KINDS = ['generic', 'shape', 'tie', 'history', 'container', 'generic', 'tie', 'history', 'scale', 'edge', 'shape', 'history',
+         'extreme']
 
 
 def gen_case(rng, idx):
@@ -1494,6 +1522,25 @@ def gen_case(rng, idx):
         case['cls'] = sc
         if 'micro' in sc and rng.random() < 0.6:
             case['history'] = [{'op': ['gen_duration_stats', 'gen_all_motion_stats'][int(rng.integers(2))]}]
+    if kind == 'extreme':
+        m = float(np.max(np.abs(x))) or 1.0
+        if rng.random() < 0.5:
+            # bracketed duration is linear in the record: the full range of normal doubles, thresholds scale with the record
+            x, suffix = gen.special_scale(rng, x)
+            case['brac_only'] = True
+            case['cls'] = 'brac' + (suffix or '-plain')
+            case['k_scale'] = int(rng.choice([-2, -1, 1, 2]))
+        else:
+            # sums of squares: |a| within 1e-150 .. 1e150 (squares stay normal doubles), both ends included exactly
+            r = int(rng.integers(4))
+            amp = [1e-150, 1e150, 10.0 ** rng.uniform(-150, -100), 10.0 ** rng.uniform(100, 150)][r]
+            x = x / m * amp
+            case['cls'] = 'sig-' + ['1e-150', '1e150', 'tiny', 'huge'][r]
+            case['k_scale'] = int(rng.choice([1, 2, 10, 40])) if r in (0, 2) else int(rng.choice([-1, -3, -20]))
+        case['factor'] = None
+        case['thr_specs'] = [sp for sp in case['thr_specs'] if sp[0] != 'abs']
+        if rng.random() < 0.3:
+            case['container'] = 'list'
     if kind == 'container':
         c = ['f32', 'i64', 'list', 'tuple', 'i8', 'i16', 'i32', 'u8', 'u16', 'intlist', 'mixedlist', 'stride', 'reversed',
              'readonly'][int(rng.integers(14))]
